@@ -280,9 +280,9 @@ func (w *World) Build(c Config) *WF {
 	}
 	if c.CustomDelete {
 		bopts = append(bopts, workflow.WithCustomDelete(func(o *Obj) error {
-			w.detCtx = detCtx{kind: "delete", objN: o.N}
+			w.detCtx = detCtx{kind: "delete", objN: o.Tok()}
 			out := w.nextOutcome()
-			w.ob("fn:delete(o%d)->%s", o.N, out)
+			w.ob("fn:delete(o%d)->%s", o.Tok(), out)
 			w.Mon.onInvoke(Invocation{Kind: "delete", Outcome: out})
 			if strings.HasPrefix(out, "l") { // the role is lost while the delete function runs; it reports an error
 				w.loseCurrentLease()
@@ -291,7 +291,12 @@ func (w *World) Build(c Config) *WF {
 			if strings.HasPrefix(out, "e") || out == "x" {
 				return errors.New("custom delete failed " + out)
 			}
-			if o.N > ScrubBase/2 {
+			if o.M != nil {
+				// scrub in place, through the map: the caller's copy of the struct shares it
+				if k := o.M["k"]; k > ScrubBase/2 {
+					o.M["k"] = ScrubBase - k
+				}
+			} else if o.N > ScrubBase/2 {
 				o.N = ScrubBase - o.N
 			}
 			return nil
@@ -331,21 +336,21 @@ func (w *World) runOutcome(ctx context.Context, kind string, status int, r *work
 	first := true
 	var pending *Invocation
 	for {
-		w.detCtx = detCtx{kind: kind, status: status, objN: r.Object.N, run: w.RunOrd(r.RunID)}
+		w.detCtx = detCtx{kind: kind, status: status, objN: r.Object.Tok(), run: w.RunOrd(r.RunID)}
 		out := w.nextOutcome()
 		if first {
-			w.ob("fn:%s(r%d,rs%d,st%d,v%d,o%d)->%s", kind, w.RunOrd(r.RunID), int(r.RunState), int(r.Status), r.Meta.Version, r.Object.N, out)
+			w.ob("fn:%s(r%d,rs%d,st%d,v%d,o%d)->%s", kind, w.RunOrd(r.RunID), int(r.RunState), int(r.Status), r.Meta.Version, r.Object.Tok(), out)
 		} else {
 			w.ob("fn:cont->%s", out)
 		}
 		if strings.HasPrefix(out, "n:") {
 			// re-entering the API is part of the same invocation; the invocation is recorded with its final outcome
 			if first {
-				pending = &Invocation{Kind: kind, Proc: w.S.Current(), Run: w.RunOrd(r.RunID), Status: status, SeenObj: r.Object.N, SeenRS: int(r.RunState),
+				pending = &Invocation{Kind: kind, Proc: w.S.Current(), Run: w.RunOrd(r.RunID), Status: status, SeenObj: r.Object.Tok(), SeenRS: int(r.RunState),
 					SeenVer: r.Meta.Version, Persisted: w.persisted(r.RunID), Now: w.Clk.Now()}
 			}
 		} else {
-			inv := Invocation{Kind: kind, Proc: w.S.Current(), Run: w.RunOrd(r.RunID), Status: status, SeenObj: r.Object.N, SeenRS: int(r.RunState),
+			inv := Invocation{Kind: kind, Proc: w.S.Current(), Run: w.RunOrd(r.RunID), Status: status, SeenObj: r.Object.Tok(), SeenRS: int(r.RunState),
 				SeenVer: r.Meta.Version, Persisted: w.persisted(r.RunID), Now: w.Clk.Now()}
 			if !first && pending != nil {
 				inv = *pending
@@ -420,10 +425,10 @@ func (w *World) timeoutFn(status int) workflow.TimeoutFunc[Obj, St] {
 
 func (w *World) timerFn(status int) workflow.TimerFunc[Obj, St] {
 	return func(ctx context.Context, r *workflow.Run[Obj, St], now time.Time) (time.Time, error) {
-		w.detCtx = detCtx{kind: "timer", status: status, objN: r.Object.N, run: w.RunOrd(r.RunID)}
+		w.detCtx = detCtx{kind: "timer", status: status, objN: r.Object.Tok(), run: w.RunOrd(r.RunID)}
 		out := w.nextOutcome()
-		w.ob("fn:timer(r%d,rs%d,st%d,v%d,o%d)->%s", w.RunOrd(r.RunID), int(r.RunState), int(r.Status), r.Meta.Version, r.Object.N, out)
-		w.Mon.onInvoke(Invocation{Kind: "timer", Proc: w.S.Current(), Run: w.RunOrd(r.RunID), Status: status, SeenObj: r.Object.N, SeenRS: int(r.RunState),
+		w.ob("fn:timer(r%d,rs%d,st%d,v%d,o%d)->%s", w.RunOrd(r.RunID), int(r.RunState), int(r.Status), r.Meta.Version, r.Object.Tok(), out)
+		w.Mon.onInvoke(Invocation{Kind: "timer", Proc: w.S.Current(), Run: w.RunOrd(r.RunID), Status: status, SeenObj: r.Object.Tok(), SeenRS: int(r.RunState),
 			SeenVer: r.Meta.Version, Persisted: w.persisted(r.RunID), Outcome: out, Now: w.Clk.Now(), Depth: 1})
 		parts := strings.Split(out, ":")
 		switch parts[0] {
@@ -457,10 +462,10 @@ func (w *World) loseCurrentLease() {
 
 func (w *World) hookFn(rs int) workflow.RunStateChangeHookFunc[Obj, St] {
 	return func(ctx context.Context, r *workflow.TypedRecord[Obj, St]) error {
-		w.detCtx = detCtx{kind: "hook", status: rs, objN: r.Object.N, run: w.RunOrd(r.RunID)}
+		w.detCtx = detCtx{kind: "hook", status: rs, objN: r.Object.Tok(), run: w.RunOrd(r.RunID)}
 		out := w.nextOutcome()
-		w.ob("fn:hook%d(r%d,rs%d,st%d,v%d,o%d)->%s", rs, w.RunOrd(r.RunID), int(r.RunState), int(r.Status), r.Meta.Version, r.Object.N, out)
-		w.Mon.onInvoke(Invocation{Kind: "hook", Proc: w.S.Current(), Run: w.RunOrd(r.RunID), Status: rs, SeenObj: r.Object.N, SeenRS: int(r.RunState),
+		w.ob("fn:hook%d(r%d,rs%d,st%d,v%d,o%d)->%s", rs, w.RunOrd(r.RunID), int(r.RunState), int(r.Status), r.Meta.Version, r.Object.Tok(), out)
+		w.Mon.onInvoke(Invocation{Kind: "hook", Proc: w.S.Current(), Run: w.RunOrd(r.RunID), Status: rs, SeenObj: r.Object.Tok(), SeenRS: int(r.RunState),
 			SeenVer: r.Meta.Version, Persisted: w.persisted(r.RunID), Outcome: out, Now: w.Clk.Now(), Depth: 1})
 		if strings.HasPrefix(out, "l") { // the role is lost while the hook runs; the hook reports an error
 			w.loseCurrentLease()
